@@ -442,6 +442,43 @@ def gen_C15(tier, rng):
         for v in (7, 8, 15):
             n = (0xf << (4 * pos)) | (v << (4 * pos + 4))
             yield (f"ge.base_mul {hx(le32(n))}", "base_mul.carry")
+    # group programs: results reused as operands in non-normalised representations (z != 1 after scalarmult_base,
+    # double, add) — every unary op followed by every binary op with the result on either side, associativity and
+    # doubling identities; seeded change C15-8 (a wrong T after `Ge::double()`) is invisible to single operations
+    def leaf():
+        r = rng.randrange(4)
+        if r == 0:
+            return "b" + hx(random_point(rng))
+        if r == 1:
+            return "m" + hx(le32(rng.getrandbits(rng.choice([8, 64, 252, 255]))))
+        if r == 2:
+            return "b" + hx(rng.choice(SMALL)[0])
+        return "b" + hx(pt_enc(BPT))
+    unary = ["d", "D", "e", "n", "d;d", "D;n", "n;d", "c;+", "c;-"]
+    binary = ["+", "-"]
+    for u in unary:
+        for bop in binary:
+            for side in (0, 1):
+                for _ in range(2 if quick else 8):
+                    a, b = leaf(), leaf()
+                    prog = f"{a};{u};{b};{bop}" if side == 0 else f"{b};{a};{u};{bop}"
+                    yield (f"ge.prog {prog}", "prog.unary_then_binary")
+                    yield (f"ge.prog {prog};{rng.choice(unary)};{leaf()};{rng.choice(binary)}", "prog.chain")
+    for _ in range(30 if quick else 600):
+        n = rng.randrange(3, 9)
+        toks, depth = [leaf()], 1
+        for _ in range(n):
+            if depth >= 2 and rng.randrange(2):
+                toks.append(rng.choice(binary)); depth -= 1
+            elif rng.randrange(3) == 0:
+                toks.append(leaf()); depth += 1
+            else:
+                toks.append(rng.choice(["d", "D", "e", "n", "c", "x"] if depth >= 2 else ["d", "D", "e", "n", "c"]))
+                if toks[-1] == "c":
+                    depth += 1
+        while depth > 1:
+            toks.append(rng.choice(binary)); depth -= 1
+        yield (f"ge.prog {';'.join(toks)}", "prog.random")
     # double_mul
     pts = [e for e, _ in SMALL] + [pt_enc(BPT)] + [random_point(rng) for _ in range(6 if quick else 60)]
     scal = [0, 1, 2, 15, 16, 17, 31, L - 1, L, 2**252, 2**253 - 1, 2**255 - 1, int("aa" * 31 + "2a", 16), int("ff" * 31 + "7f", 16)]
